@@ -111,11 +111,11 @@ Proof. unfold msh2_text. cbn [length]. lia. Qed.
 Lemma first_piece_msh_ec text e structure version :
   get_message_info text = Ok (e, structure, version) ->
   exists ps tail,
-    pieces text = first_line text :: ps /\
+    pieces text = strip (first_line text) :: ps /\
     strip (first_line text) = unbs "MSH" ++ fsep e :: msh2_text e ++ tail /\
     (tail = [] \/ exists r, tail = fsep e :: r) /\
     nosep beqb (fsep e) (msh2_text e) = true /\ is_space (fsep e) = false /\
-    existsb is_space (msh2_text e) = false /\ take 3 (first_line text) = unbs "MSH".
+    existsb is_space (msh2_text e) = false /\ take 3 (strip (first_line text)) = unbs "MSH".
 Proof.
   unfold get_message_info. intros H. destruct (split_msh text) as [[fields e']|] eqn:Es; [|discriminate].
   cbn [bind] in H. injection H as <- _ _.
@@ -133,14 +133,16 @@ Proof.
     - exists []. split; [cbn; now rewrite app_nil_r|now left].
     - exists (fs :: bjoin fs (m1 :: more)). split; [reflexivity|right; eauto]. }
   destruct Ej as (tail0 & Ej & Ht0).
-  destruct (pieces_first (unbs "MSH" ++ fs :: rest)) as [ps Ep]; [rewrite Efl; discriminate|].
   destruct (strip_by_shape is_space (unbs "MSH" ++ fs :: seps) tail0 fs) as (tail & Est & Ht); [discriminate| |exact Hs|exact Ht0|].
   { rewrite forallb_app. cbn [forallb]. rewrite Hs. cbn [negb andb]. rewrite (nospace_forallb seps Hsp). reflexivity. }
-  exists ps, tail. split; [exact Ep|]. split; [|repeat split; try assumption; now rewrite Efl].
-  rewrite Efl, Ej. unfold strip.
-  replace (unbs "MSH" ++ fs :: seps ++ tail0) with ((unbs "MSH" ++ fs :: seps) ++ tail0)
-    by (rewrite <- app_assoc; reflexivity).
-  rewrite Est. rewrite <- app_assoc. reflexivity.
+  assert (Estrip : strip (first_line (unbs "MSH" ++ fs :: rest)) = unbs "MSH" ++ fs :: seps ++ tail).
+  { rewrite Efl, Ej. unfold strip.
+    replace (unbs "MSH" ++ fs :: seps ++ tail0) with ((unbs "MSH" ++ fs :: seps) ++ tail0)
+      by (rewrite <- app_assoc; reflexivity).
+    rewrite Est. rewrite <- app_assoc. reflexivity. }
+  destruct (pieces_first (unbs "MSH" ++ fs :: rest)) as [ps Ep]; [rewrite Estrip; discriminate|].
+  exists ps, tail. split; [exact Ep|]. split; [exact Estrip|].
+  repeat split; try assumption. now rewrite Estrip.
 Qed.
 
 (* the first top-level child is the MSH segment holding exactly these texts *)
@@ -187,13 +189,13 @@ Hypothesis Hr1 : row_ref t row1 = Some (SLeaf inf1).
 Hypothesis Hr2 : row_ref t row2 = Some (SLeaf inf2).
 Variable text : str.
 Variables (ps : list str) (tail : str).
-Hypothesis Ep : pieces text = first_line text :: ps.
+Hypothesis Ep : pieces text = strip (first_line text) :: ps.
 Hypothesis Estrip : strip (first_line text) = unbs "MSH" ++ fsep e :: msh2_text e ++ tail.
 Hypothesis Htail : tail = [] \/ exists r, tail = fsep e :: r.
 Hypothesis Hns : nosep beqb (fsep e) (msh2_text e) = true.
 Hypothesis Hfs : is_space (fsep e) = false.
 Hypothesis Hsp : existsb is_space (msh2_text e) = false.
-Hypothesis Htake : take 3 (first_line text) = unbs "MSH".
+Hypothesis Htake : take 3 (strip (first_line text)) = unbs "MSH".
 
 Lemma flat_msh_head_ec kids : parse_segments_flat t lvl e leaf text = Ok kids -> msh_head_ec e kids.
 Proof.
@@ -212,7 +214,7 @@ Proof.
   apply bind_ok in Hf. destruct Hf as (s & Hrun & Hf). injection Hf as <-.
   rewrite Ep in Hrun. cbn [Groups.run] in Hrun. apply bind_ok in Hrun. destruct Hrun as (s1 & Hs1 & Hrun).
   destruct (first_step_leaf' t str seg (take 3) (seg_of_piece t lvl e leaf) s_name (group_admission t lvl) root
-              (first_line text) s1) as (a & r & Ef & Em & Hr); [|exact Hs1|].
+              (strip (first_line text)) s1) as (a & r & Ef & Em & Hr); [|exact Hs1|].
   { rewrite Htake. unfold msh_top_ok in Htop. destruct (search t search_fuel (unbs "MSH") root) as [[[sr [|? ?]]|]|]; (exact I || discriminate). }
   assert (Hh : Proofs.RoundTripMsg.hd_leaf seg a r (g_forest s1)) by (exists []; exact Ef).
   pose proof (Proofs.RoundTripMsg.run_hd t str seg (take 3) (seg_of_piece t lvl e leaf) s_name (group_admission t lvl)
